@@ -7,10 +7,11 @@
 // stdout: "\n@@RES {json}" per case:
 //   {"id":..,"compile":[..]} | {"id":..,"compile_panic":".."} |
 //   {"id":..,"prog":{"funs":[{"name","nparam","pwords"|null,"nret","code":[["Move",1,2],..],"consts":[u64..],
-//        "delay_sizes":[..],"jump_tables":[{"min":i,"offsets":[..]}],"ssize":N,"skel":"[..]","nup":k}],
-//        "globals":[sizes],"ext":[names],"dsp":idx|null,"io":[in,out]|null,"types_plain":[bool..]},
-//    "main":{"rc":..,"words":[..],"pos":..}|{"panic":".."},
-//    "samples":[{"rc":..,"out":["bits"..],"words":[..],"pos":..}|{"panic":".."}]}
+//        "delay_sizes":[..],"jump_tables":[{"min":i,"offsets":[..]}],"ssize":N,"skel":"[..]","nup":k,
+//        "up":[[pos,size,is_closure]..]}],
+//        "globals":[sizes],"ext":[names],"dsp":idx|null,"io":[in,out]|null,"types_plain":[bool..],"types":[tree..]},
+//    "main":{"rc":..,"words":[..],"pos":..,"ncls":closures.len(),"nheap":heap.len()}|{"panic":".."},
+//    "samples":[{"rc":..,"out":["bits"..],"words":[..],"pos":..,"ncls":..,"nheap":..}|{"panic":".."}]}
 use serde_json::{Value, json};
 use std::io::{BufRead, Write};
 use std::sync::atomic::Ordering;
@@ -73,6 +74,40 @@ fn plain_type(ty: mimium_lang::interner::TypeNodeId, depth: usize) -> bool {
     }
 }
 
+/// the type as clone_usersum_recursive / release_usersum_recursive see it:
+/// ["P"] | ["B", inner] | ["S", name, [payload|null, ..]] | ["T", [[word_size, elem], ..]] | ["A", name]
+/// (names are numbered in order of first appearance)
+fn type_tree(ty: mimium_lang::interner::TypeNodeId, names: &mut Vec<String>, depth: usize) -> Value {
+    use mimium_lang::types::Type;
+    let mut id_of = |n: String, names: &mut Vec<String>| -> usize {
+        match names.iter().position(|x| *x == n) {
+            Some(i) => i,
+            None => {
+                names.push(n);
+                names.len() - 1
+            }
+        }
+    };
+    if depth > 64 {
+        return json!(["P"]);
+    }
+    match ty.to_type() {
+        Type::Boxed(inner) => json!(["B", type_tree(inner, names, depth + 1)]),
+        Type::TypeAlias(name) => json!(["A", id_of(name.to_string(), names)]),
+        Type::UserSum { name, variants } => {
+            let n = id_of(name.to_string(), names);
+            let vs: Vec<Value> = variants
+                .iter()
+                .map(|(_, p)| p.map_or(Value::Null, |t| type_tree(t, names, depth + 1)))
+                .collect();
+            json!(["S", n, vs])
+        }
+        Type::Tuple(elems) => json!(["T", elems.iter().map(|t| json!([t.word_size(), type_tree(*t, names, depth + 1)])).collect::<Vec<_>>()]),
+        Type::Record(fields) => json!(["T", fields.iter().map(|f| json!([f.ty.word_size(), type_tree(f.ty, names, depth + 1)])).collect::<Vec<_>>()]),
+        _ => json!(["P"]),
+    }
+}
+
 fn prog_json(p: &Program, pwords: &Option<Vec<u64>>) -> Value {
     use state_tree::tree::SizedType;
     let funs: Vec<Value> = p
@@ -92,9 +127,12 @@ fn prog_json(p: &Program, pwords: &Option<Vec<u64>>) -> Value {
                 "ssize": f.state_skeleton.total_size(),
                 "skel": skel_to_string(&f.state_skeleton),
                 "nup": f.upindexes.len(),
+                "up": f.upindexes.iter().map(|u| json!([u.pos, u.size, u.is_closure])).collect::<Vec<_>>(),
             })
         })
         .collect();
+    let mut names: Vec<String> = vec![];
+    let types: Vec<Value> = p.type_table.iter().map(|t| type_tree(*t, &mut names, 0)).collect();
     json!({
         "funs": funs,
         "globals": p.global_vals.iter().map(|w| w.0).collect::<Vec<_>>(),
@@ -102,6 +140,7 @@ fn prog_json(p: &Program, pwords: &Option<Vec<u64>>) -> Value {
         "dsp": p.dsp_index,
         "io": p.iochannels.map(|io| vec![io.input, io.output]),
         "types_plain": p.type_table.iter().map(|t| plain_type(*t, 0)).collect::<Vec<_>>(),
+        "types": types,
     })
 }
 
@@ -120,6 +159,12 @@ fn row(case: &Value, t: usize) -> Vec<f64> {
         .and_then(|r| r.as_array())
         .map(|r| r.iter().map(|v| v.as_f64().unwrap_or(0.0)).collect())
         .unwrap_or_default()
+}
+
+/// (closures.len(), heap.len()) of the machine
+fn stores_of(rt: &RuntimeData) -> (usize, usize) {
+    let vm = &rt.downcast_runtime_ref::<VmDspRuntime>().unwrap().vm;
+    (vm.closures.len(), vm.heap.len())
 }
 
 #[cfg(mimium_verif)]
@@ -198,7 +243,8 @@ fn run_case(case: &Value) -> Value {
         }
     };
     let (w, p) = state_of(&rt);
-    res["main"] = json!({"rc": rc, "words": w, "pos": p});
+    let (nc, nh) = stores_of(&rt);
+    res["main"] = json!({"rc": rc, "words": w, "pos": p, "ncls": nc, "nheap": nh});
     // the program may have been changed by main (wrap_extern_cls appends functions)
     let after: Program = rt.downcast_runtime_ref::<VmDspRuntime>().unwrap().vm.prog.clone();
     if after.global_fn_table.len() != prog.global_fn_table.len() {
@@ -227,7 +273,8 @@ fn run_case(case: &Value) -> Value {
             }
             Ok((rc, out)) => {
                 let (w, p) = state_of(&rt);
-                samples.push(json!({"rc": rc, "out": out.iter().map(|x| fbits(*x)).collect::<Vec<_>>(), "words": w, "pos": p}));
+                let (nc, nh) = stores_of(&rt);
+                samples.push(json!({"rc": rc, "out": out.iter().map(|x| fbits(*x)).collect::<Vec<_>>(), "words": w, "pos": p, "ncls": nc, "nheap": nh}));
             }
         }
     }
